@@ -71,7 +71,7 @@ def prune(n: Node, strict: bool = False) -> list:
             pruned.append((n, str(ex)))
             if n.parent is not None:
                 n.parent.remove_child(n)
-            Node.delete_node_instance(n.id)
+            Node.delete_node(n)
             return pruned
         except MetapypeRuleError as ex:
             logger.debug(ex)
@@ -85,7 +85,7 @@ def prune(n: Node, strict: bool = False) -> list:
                 msg = f"Child '{child.name}' not allowed in parent '{n.name}'"
                 pruned.append((child, msg))
                 n.remove_child(child)
-                Node.delete_node_instance(child.id)
+                Node.delete_node(child)
         children = n.children.copy()
         for child in children:
             pruned += prune(child, strict)
@@ -96,7 +96,7 @@ def prune(n: Node, strict: bool = False) -> list:
                     logger.debug(f"Pruning: {child.name}")
                     pruned.append((child, str(ex)))
                     n.remove_child(child)
-                    Node.delete_node_instance(child.id)
+                    Node.delete_node(child)
     return pruned
 
 
